@@ -139,7 +139,7 @@ func c19History(c *fw.Ctx, id string, i int) {
 		}
 	}
 	for op := 0; op < nops; op++ {
-		k := r.Intn(12)
+		k := r.Intn(13)
 		var kind string
 		switch k {
 		case 0, 1, 2:
@@ -239,6 +239,46 @@ func c19History(c *fw.Ctx, id string, i int) {
 			}
 			if !sameList(arg, argCopy) {
 				fail("argument-modified", fmt.Sprintf("%s changed the caller's argument slice: before %v, after %v", kind, argCopy, arg))
+			}
+		case 12:
+			// the list lives on a node that is cloned: the clone's list is a list of its own
+			kind = "node-cloned"
+			holders := []func(dst.Decorations) (dst.Node, func(dst.Node) *dst.Decorations){
+				func(x dst.Decorations) (dst.Node, func(dst.Node) *dst.Decorations) {
+					n := &dst.FuncDecl{Name: dst.NewIdent("f"), Type: &dst.FuncType{}}
+					n.Decs.Start = x
+					return n, func(m dst.Node) *dst.Decorations { return &m.(*dst.FuncDecl).Decs.Start }
+				},
+				func(x dst.Decorations) (dst.Node, func(dst.Node) *dst.Decorations) {
+					n := &dst.AssignStmt{Lhs: []dst.Expr{dst.NewIdent("a")}, Tok: token.ASSIGN, Rhs: []dst.Expr{dst.NewIdent("b")}}
+					n.Decs.End = x
+					return n, func(m dst.Node) *dst.Decorations { return &m.(*dst.AssignStmt).Decs.End }
+				},
+				func(x dst.Decorations) (dst.Node, func(dst.Node) *dst.Decorations) {
+					n := &dst.Field{Type: dst.NewIdent("int")}
+					n.Decs.Type = x
+					return n, func(m dst.Node) *dst.Decorations { return &m.(*dst.Field).Decs.Type }
+				},
+				func(x dst.Decorations) (dst.Node, func(dst.Node) *dst.Decorations) {
+					n := dst.NewIdent("x")
+					n.Decs.X = x
+					return n, func(m dst.Node) *dst.Decorations { return &m.(*dst.Ident).Decs.X }
+				},
+			}
+			node, at := holders[r.Intn(len(holders))](d)
+			cl := dst.Clone(node)
+			cd := at(cl)
+			if !sameList(cd.All(), model) {
+				fail("clone-differs", fmt.Sprintf("the cloned node's list is %v, the original's %v", cd.All(), model))
+			}
+			cv, dv := fresh(), fresh()
+			cd.Append(cv)
+			at(node).Append(dv)
+			d = *at(node)
+			wantClone := append(append([]string(nil), model...), cv)
+			model = append(append([]string(nil), model...), dv)
+			if !sameList(cd.All(), wantClone) {
+				fail("clone-shares-list", fmt.Sprintf("after appending %q to the clone's list and %q to the original's, the clone's list reads %v (want %v)", cv, dv, cd.All(), wantClone))
 			}
 		case 10:
 			kind = "caller-keeps-All()"
